@@ -17,11 +17,21 @@ def _in_set(atoms, pred):
         if a[0] == 'in' and pred(a[1]):
             cur = set(a[2]) if cur is None else (cur & set(a[2]))
         elif a[0] == 'cmp':
+            done = False
             for (x, y, rel) in ((a[1], a[2], a[3]), (a[2], a[1], frozenset({'<': '>', '>': '<', '=': '='}[c] for c in a[3]))):
                 if pred(('call', 'std::cmp::Ord::cmp', (x, y), None)):
                     st = set(names[c] for c in rel)
                     cur = st if cur is None else (cur & st)
+                    done = True
                     break
+            if not done and a[3] in (frozenset('='), frozenset('<>')):
+                # `x == Ordering::Less` / `x != Ordering::Less` (a unit variant of a std enum compared as a value)
+                for (x, y) in ((a[1], a[2]), (a[2], a[1])):
+                    if pred(x) and isinstance(y, tuple) and y and y[0] == 'aggr' and not y[3] and y[2] is not None:
+                        st = {y[2]} if a[3] == frozenset('=') else set(M.complement(frozenset([y[2]])) or ())
+                        if st:
+                            cur = st if cur is None else (cur & st)
+                        break
     return cur
 
 
@@ -457,11 +467,18 @@ def r_dom_store(ctx):
             continue
         so = _in_set(atoms, lambda t: t == pc)
         oo = _in_set(atoms, lambda t: M.is_field(t, 'ordering', 'DominanceCmpResult') and M.contains(t, lambda x: x == pc))
-        case = 'None' if so == {'None'} else (sorted(oo)[0] if oo and len(oo) == 1 else '?')
+        # a path taken for several orderings (`Some(_) => false`, `_ => ..`) is a row of each of them
+        if so == {'None'}:
+            cases_ = ['None']
+        elif so == {'Some'} or oo:
+            cases_ = sorted(oo) if oo else ['Less', 'Equal', 'Greater']
+        else:
+            cases_ = ['?']
         rt = _path_ret(c, blocks, end)
         eff = M.path_effects(c, blocks, start, end)
         marks = any(k == 'write' and M.is_const(c.origin.rvalue(s['rv'], pt), True) and c.origin.place(s['place'], pt) in dom_var for (k, pt, s) in eff)
-        table.setdefault(case, set()).add((rt[1] if M.is_const(rt) else M.show(rt), marks))
+        for case in cases_:
+            table.setdefault(case, set()).add((rt[1] if M.is_const(rt) else M.show(rt), marks))
     want = {'None': {(True, False)}, 'Less': {(True, True)}, 'Equal': {(False, False)}, 'Greater': {(False, False)}}
     ctx.stats['paths'] += sum(len(v) for v in table.values())
     ctx.check(table == want, 'R10.3', 'retain/table', c, c.loc(pbb),
@@ -527,7 +544,8 @@ def r_dom_store(ctx):
         # case by case: every value written is either the threshold itself (no change) or min(threshold, Some(X)) with
         # X = stored.value (only_val_diff false) | stored.value - 1 (only_val_diff true), and then use_value holds and the verdict is Less
         okp2, cutp, _ = M.guarded(c, [pt], uvp)
-        okl, _, _ = M.guarded(c, [pt], lambda atoms, lit: any(a_[0] == 'in' and a_[2] == frozenset(['Less']) for a_ in atoms))
+        is_ordering = lambda t: M.is_field(t, 'ordering', 'DominanceCmpResult') and M.contains(t, lambda x: x == pc)
+        okl, _, _ = M.guarded(c, [pt], lambda atoms, lit: _in_set(atoms, is_ordering) == {'Less'})
         okt, _, _ = M.guarded(c, [pt], lambda atoms, lit: any(a_[0] == 'T' and ovd(a_[1]) for a_ in atoms))
         okf, _, _ = M.guarded(c, [pt], lambda atoms, lit: any(a_[0] == 'F' and ovd(a_[1]) for a_ in atoms))
         for (conds, leaf) in M.cases(v):
@@ -654,13 +672,16 @@ def r_cache_store(ctx):
     good = len(cc) == 1 and lay(cl.origin.operand(cc[0][1]['args'][0], cl.term_point(cc[0][0])), 1)
     ctx.check(good, 'R18.c', 'cache/clear_layer', cl, cl.loc(0), 'clear_layer(d) clears thresholds_by_layer[d] only', 'clear_layer does not clear exactly thresholds_by_layer[depth]')
     ca = ctx.body(SC, 'clear', trait='Cache')
-    fe = ca.calls_to('for_each')
-    good = len(fe) == 1
-    if good:
-        a = [ca.origin.operand(x, ca.term_point(fe[0][0])) for x in fe[0][1]['args']]
-        good = M.contains(a[0], lambda x: M.is_field(x, 'thresholds_by_layer', 'SimpleCache')) and not M.contains(a[0], lambda x: M.is_call(x, 'skip', 'take', 'step_by', 'filter'))
-        cb = ctx.F.bodies.get(a[1][1]) if isinstance(a[1], tuple) and a[1][0] == 'closure' else None
-        good = good and cb is not None and len(cb.calls_to('clear')) == 1
+    # every layer is cleared: an element-wise iteration (for / for_each) over ALL of thresholds_by_layer whose every iteration clears its item
+    good = False
+    for it in iterations(ctx, ca):
+        if not M.is_field(it['src'], 'thresholds_by_layer', 'SimpleCache'):
+            continue        # skip / take / filter / a sub-slice are not element-preserving adaptors: src would not be the bare field
+        w = it['where']
+        cps = [w.term_point(bb) for (bb, t) in w.calls_to('clear') if it['is_item'](w.origin.operand(t['args'][0], w.term_point(bb)))]
+        if every_iteration_does(it, cps):
+            good = True
+    # (or a wholesale re-initialisation is not accepted: other threads hold &self)
     ctx.check(good, 'R18.c', 'cache/clear', ca, ca.loc(0), 'clear() clears every layer', 'clear() does not clear every layer of thresholds_by_layer')
     ini = ctx.body(SC, 'initialize', trait='Cache')
     rng = [x for (bb_, t_) in ini.calls() for x in [ini.origin.call(t_, ini.term_point(bb_))] if M.is_call(x, 'new') and 'RangeInclusive' in x[1]]
